@@ -541,6 +541,7 @@ func (e *Enc) havocLoop(li *loopInfo) {
 	} else {
 		oldAlloc := e.get(e.st, e.allocKey())
 		pre := map[string]string{}
+		preT := map[string]string{}
 		for _, k := range sortedKeys(li.mods) {
 			if _, known := e.compSort[k]; !known {
 				continue
@@ -548,11 +549,22 @@ func (e *Enc) havocLoop(li *loopInfo) {
 			if !li.genMods[k] && k != "alloc" && (strings.HasPrefix(k, "H|") || strings.HasPrefix(k, "Arr|") || strings.HasPrefix(k, "Map|") || strings.HasPrefix(k, "Mem|")) {
 				pre[k] = e.get(e.st, k)
 			}
+			if _, ok := li.targets[k]; ok && li.genMods[k] {
+				preT[k] = e.get(e.st, k)
+			}
 			e.st.m[k] = e.fresh("lh_"+k, e.compKeySort(k))
 		}
 		// loop frame: a component that the loop only touches at objects it allocates keeps everything allocated before the loop
 		for _, k := range sortedKeys(pre) {
 			e.assert(fmt.Sprintf("(forall ((x Int)) (! (=> (<= x %s) (= (select %s x) (select %s x))) :pattern ((select %s x))))", oldAlloc, e.st.m[k], pre[k], e.st.m[k]))
+		}
+		// loop frame (2): all other writes of the loop go to a few loop-invariant objects; everything else allocated before is unchanged
+		for _, k := range sortedKeys(preT) {
+			var ne []string
+			for _, v := range li.targets[k] {
+				ne = append(ne, not(eq("x", e.val(v).S)))
+			}
+			e.assert(fmt.Sprintf("(forall ((x Int)) (! (=> (and (<= x %s) %s) (= (select %s x) (select %s x))) :pattern ((select %s x))))", oldAlloc, and(ne...), e.st.m[k], preT[k], e.st.m[k]))
 		}
 		for _, k := range sortedKeys(li.mods) {
 			if e.refComp[k] {
